@@ -25,6 +25,8 @@ ToRom(c) ==
   LET z == [k |-> "?", a |-> Zero, n |-> Zero, x |-> Zero, f |-> 0, m |-> <<0, 0>>, d |-> <<>>] IN
   CASE c.t = "load"   -> [z EXCEPT !.k = "load", !.a = Lim(c.a), !.m = MemSplit(c.m), !.d = c.d]
     [] c.t = "fill"   -> [z EXCEPT !.k = "fill", !.a = Lim(c.a), !.n = Lim(c.n), !.x = Word4(c.d), !.f = 1]
+    [] c.t = "prog"   -> [z EXCEPT !.k = "prog", !.a = Lim(c.a), !.m = MemSplit(c.m), !.n = <<c.d[4] * 256 + c.d[3], c.d[2] * 256 + c.d[1]>>,
+                                   !.x = (IF Len(c.d) = 8 THEN <<c.d[8] * 256 + c.d[7], c.d[6] * 256 + c.d[5]>> ELSE Zero)]
     [] c.t = "erase"  -> [z EXCEPT !.k = "erase", !.a = Lim(c.a), !.n = Lim(c.n), !.f = c.f, !.m = MemSplit(c.m)]
     [] c.t = "enable" -> [z EXCEPT !.k = "enable", !.a = Lim(c.a), !.n = Lim(c.n), !.m = MemSplit(c.m)]
     [] c.t = "call"   -> [z EXCEPT !.k = "call", !.a = Lim(c.a), !.x = Lim(c.x)]
